@@ -530,6 +530,8 @@ class Engine:
                 e = z3.Or(*[s.values_eq(a, s.lift(x), p) for x in b.d]) if b.d else z3.BoolVal(False)
             elif isinstance(b, STup):
                 e = z3.Or(*[s.values_eq(a, x, p) for x in b.items]) if b.items else z3.BoolVal(False)
+            elif isinstance(b, SSeq) and hasattr(b, "range_of") and isinstance(a, SInt):
+                e = z3.And(b.range_of[0] <= a.t, a.t < b.range_of[1])
             elif isinstance(b, SSeq):
                 e = s.exists(0, b.n, lambda k: z3.Select(b.arr, k) == a.t)
             elif isinstance(b, SSet):
